@@ -75,6 +75,13 @@ func (in *Interp) lookupIntrinsic(fn *ssa.Function) Intrinsic {
 	if f, ok := intrinsics[name]; ok {
 		return f
 	}
+	if fn.Name() == "String" && fn.Signature.Recv() != nil {
+		if n, ok := types.Unalias(fn.Signature.Recv().Type()).(*types.Named); ok && fn.Pkg != nil {
+			if b, isB := n.Underlying().(*types.Basic); isB && b.Kind() == types.Int32 && fn.Pkg.Var(n.Obj().Name()+"_name") != nil {
+				return protoEnumString
+			}
+		}
+	}
 	pp := pkgPathOf(fn)
 	if pp != "" {
 		if strings.HasPrefix(pp, "github.com/openfga/openfga/") && strings.HasSuffix(pp, "/metrics") {
@@ -87,6 +94,25 @@ func (in *Interp) lookupIntrinsic(fn *ssa.Function) Intrinsic {
 		}
 	}
 	return nil
+}
+
+// protoEnumString models the generated String() of protobuf enums through the generated <Enum>_name map
+// (the real code goes through protoreflect descriptors).
+func protoEnumString(in *Interp, fn *ssa.Function, args []Value, g *Term) Value {
+	n := types.Unalias(fn.Signature.Recv().Type()).(*types.Named)
+	gv := fn.Pkg.Var(n.Obj().Name() + "_name")
+	m, ok := (*in.globalCell(gv)).(*MapObj)
+	if !ok || m == nil {
+		return in.concStr("ENUM")
+	}
+	v, found := in.mapGet(m, gv.Type().(*types.Pointer).Elem().Underlying().(*types.Map), args[0])
+	if s, isS := v.(*Str); isS && found.IsTrue() {
+		return s
+	}
+	if s, isS := v.(*Str); isS && !found.IsFalse() {
+		return in.merge(found, s, in.concStr("ENUM")).(*Str)
+	}
+	return in.concStr("ENUM")
 }
 
 func noopIntrinsic(in *Interp, fn *ssa.Function, args []Value, g *Term) Value {
@@ -125,6 +151,21 @@ func (in *Interp) noopResults(sig *types.Signature, args []Value) Value {
 		tu[i] = mk(r.At(i).Type())
 	}
 	return tu
+}
+
+// noopIfaceType: a named interface type declared in one of the no-op packages (metrics, tracing, logging).
+func noopIfaceType(t types.Type) bool {
+	n, ok := types.Unalias(t).(*types.Named)
+	if !ok || n.Obj().Pkg() == nil {
+		return false
+	}
+	pp := n.Obj().Pkg().Path()
+	for _, p := range noopPrefixes {
+		if strings.HasPrefix(pp, p) {
+			return true
+		}
+	}
+	return false
 }
 
 func isContextType(t types.Type) bool {
